@@ -164,6 +164,60 @@ def main():
                                    meaning='static-initializer value, enum value, array bound (value % 7 + 8), run-time value on volatile operands: all four must agree with each other and with gcc'),
                               dict(area='fold-float-operand', top=tpl[:12]))
 
+    # ---------------- case constants: converted to the PROMOTED type of the controlling expression (6.8.4.2p5) ----------------
+    # generated switches over every integer type with labels inside and outside the range of the type (and of its promoted type), GNU ranges, and
+    # inputs on and next to every label: the selected arm is gcc's and the one computed here from the rule
+    CT = [('char', 8, True), ('signed char', 8, True), ('unsigned char', 8, False), ('short', 16, True), ('unsigned short', 16, False), ('_Bool', 1, False),
+          ('int', 32, True), ('unsigned', 32, False), ('long', 64, True), ('unsigned long', 64, False)]
+    def wrap(v, bits, sg):
+        v &= (1 << bits) - 1
+        return v - (1 << bits) if sg and v >> (bits - 1) else v
+    def lit(v): return '(-%dL - 1)' % (-v - 1) if v < 0 else ('%dL' % v if v < 2**63 else '%dUL' % v)
+    NSW = 16 if run.quick() else 120
+    cl_text = ['int printf(const char *, ...);']; cl_main = []; cl_expect = []
+    for k in range(NSW):
+        tn, bits, sg = CT[k % len(CT)] if k < len(CT) else rng.choice(CT)
+        pbits, psg = (32, True) if bits < 32 else (bits, sg)
+        tlo, thi = (0, 1) if tn == '_Bool' else ((-(1 << (bits - 1)), (1 << (bits - 1)) - 1) if sg else (0, (1 << bits) - 1))
+        labels = []; taken = set()
+        for j in range(rng.randint(3, 8)):
+            base = rng.choice([tlo, thi, thi + 1, tlo - 1, 0, -1, 1, 2, 1 << bits, (1 << bits) + 1, (1 << bits) + thi, 1 << 32, (1 << 32) + 1, (1 << 32) - 1, -(1 << 31), (1 << 31), 2**63 - 1, 44, 300, rng.randint(tlo, thi)])
+            base = max(-2**63, min(2**64 - 1, base))
+            if rng.random() < 0.2 and base < 2**63 - 8:
+                lo, hi = base, base + rng.randint(1, 4)
+                clo, chi = wrap(lo, pbits, psg), wrap(hi, pbits, psg)
+                if clo > chi: continue                                           # an empty range after conversion: gcc warns, skip
+                vals = set(range(clo, chi + 1))
+            else:
+                lo = hi = base; vals = {wrap(base, pbits, psg)}
+            if vals & taken: continue                                            # duplicate after conversion: a constraint violation
+            taken |= vals; labels.append((lo, hi, vals, len(labels) + 1))
+        arms = ' '.join(('case %s: return %d;' % (lit(lo), r)) if lo == hi else ('case %s ... %s: return %d;' % (lit(lo), lit(hi), r)) for lo, hi, vals, r in labels)
+        cl_text.append('static int cl%d(%s c) { switch (c) { %s default: return 0; } }' % (k, tn, arms))
+        ins = {tlo, thi, 0, 1}
+        for lo, hi, vals, r in labels:
+            for v in (min(vals), max(vals), min(vals) - 1, max(vals) + 1, lo, hi): ins.add(1 if tn == '_Bool' and v else wrap(v, bits, sg) if tn != '_Bool' else 0)
+        ins = sorted(ins)[:24]
+        for v in ins:
+            pv = wrap(v, pbits, psg) if bits >= 32 else v                        # value after promotion
+            exp = next((r for lo, hi, vals, r in labels if pv in vals), 0)
+            cl_main.append('  printf("%%d\\n", cl%d((%s)%s));' % (k, tn, lit(v))); cl_expect.append((k, tn, v, exp, arms))
+    cl_text.append('int main(void) {\n' + '\n'.join(cl_main) + '\n  return 0; }\n')
+    cf = os.path.join(wd, 'caselabels.c'); open(cf, 'w').write('\n'.join(cl_text))
+    stc, gotc = compile_run(CHIBI, cf, cf + '.c.exe'); stg, gotg = compile_run(['gcc', '-w', '-O0', '-std=gnu11'], cf, cf + '.g.exe')
+    if stg != 'ok': run.corr_broken.append('case-label program fails under gcc: ' + stg[-300:])
+    elif stc != 'ok': run.violation(dict(kind='constant-program', what=stc[:400], note='case constants in and out of range of the controlling type', input_file=write_replay(PID, 'caselabels.c', '\n'.join(cl_text))), dict(area='case-label-conversion'))
+    else:
+        lc, lg = gotc.strip().split('\n'), gotg.strip().split('\n')
+        for i, (k, tn, v, exp, arms) in enumerate(cl_expect):
+            evals += 1; nontriv.add('cl%d.%d' % (k, i))
+            c_ = lc[i] if i < len(lc) else 'missing'; g_ = lg[i] if i < len(lg) else 'missing'
+            if g_ != str(exp): run.corr_broken.append('case-label rule of the harness disagrees with gcc: (%s)%d over {%s}: gcc %s, rule %d' % (tn, v, arms[:200], g_, exp)); break
+            if c_ != g_:
+                run.violation(dict(kind='case-label-conversion', controlling_type=tn, value=v, switch='switch (c) { %s default: return 0; }' % arms, got=c_, gcc=g_, c11=exp,
+                                   meaning='6.8.4.2p5: each case constant is converted to the promoted type of the controlling expression; the arm selected for this value differs from gcc and from the rule'),
+                              dict(area='case-label-conversion', top=tn))
+
     # undefined divisions in constant expressions must be diagnosed (exit 1 with a message), never crash the compiler
     divs = [(e, s) for e, s in undefined if s[3] in ('err-div-zero', 'err-overflow')][:60 if run.quick() else 400]
     divs += [(('B', 'div', ('L', 'i32', 1), ('L', 'i32', 0)), None), (('B', 'mod', ('L', 'u64', 5), ('L', 'u8', 0)), None),
